@@ -50,8 +50,11 @@ def handle (j : Json) : Except String Json := do
     let first ← match j.getObjVal? "first" with
       | .ok f => f.getNat?
       | .error _ => pure 0
+    let resid0 ← match j.getObjVal? "resid0" with
+      | .ok f => f.getNat?
+      | .error _ => pure 1
     -- the specification is evaluated with the pairing written in the property, not the repo's table
-    match Dna.specGraphFrom first Dna.watsonCrick names labels circ with
+    match Dna.specGraphAt first resid0 Dna.watsonCrick names labels circ with
     | some g => pure (okJson [("graph", graphToJson g)])
     | none => pure (errJson "unknown-resname")
   | "strand" =>
@@ -66,7 +69,10 @@ def handle (j : Json) : Except String Json := do
     let first ← match j.getObjVal? "first" with
       | .ok f => f.getNat?
       | .error _ => pure 0
-    pure (okJson [("graph", graphToJson (Dna.strandGraphFrom first names labels circ))])
+    let resid0 ← match j.getObjVal? "resid0" with
+      | .ok f => f.getNat?
+      | .error _ => pure 1
+    pure (okJson [("graph", graphToJson (Dna.strandGraphAt first resid0 names labels circ))])
   | "genparams" =>
     -- gen_params up to MapToMolecule: source ∈ {"seq", "seq_file"}, dsdna flag
     let names ← (← j.getObjVal? "names").getArr?
@@ -85,7 +91,10 @@ def handle (j : Json) : Except String Json := do
         let first ← match j.getObjVal? "first" with
           | .ok f => f.getNat?
           | .error _ => pure 0
-        pure (Dna.SeqInput.seqFile first names labels circ)
+        let resid0 ← match j.getObjVal? "resid0" with
+          | .ok f => f.getNat?
+          | .error _ => pure 1
+        pure (Dna.SeqInput.seqFile first resid0 names labels circ)
       | _ => throw s!"unknown source {source}"
     match Dna.genParamsDsdna Tables.baseLibrary inp dsdna with
     | .ok g => pure (okJson [("residues", Json.arr (g.nodes.map (fun n => Json.arr #[toJson n.resid, Json.str n.resname])).toArray)])
